@@ -56,9 +56,14 @@ type envWorld struct {
 	hdr           map[string][]byte // "alg1" (H's), "alg2"/"alg1" for M
 	mHdr          []byte
 	base          map[string]*envelopeParts
+	bases         []map[string]*envelopeParts // the same two tokens with each of baseCommands (bases[0] == base)
 	cids          []cid.Cid
 	rot           int
 }
+
+// baseCommands: the command of the honest tokens the behaviours start from - several segments, the top command, an
+// EMPTY inner segment (a segment like any other), multi-byte lower-case letters, a blank.
+var baseCommands = []string{"/a/b", "/", "/a//b", "/é/日本", "/a b/c"}
 
 // envelopeParts is a decoded envelope that can be edited and re-assembled.
 type envelopeParts struct {
@@ -212,30 +217,39 @@ func newEnvWorldAlg(seed int64, mSameAlg bool, hAlg string) (*envWorld, error) {
 	ew.cids = []cid.Cid{missingCid(1), missingCid(2), missingCid(3)}
 
 	pol, _ := policy.FromDagJson(`[["==", ".x", 1]]`)
-	dlg, err := delegation.New(ew.H.id, ew.P.id, command.MustParse("/a/b"), pol, delegation.WithSubject(ew.S.id),
-		delegation.WithMeta("k", "v"), delegation.WithNotBeforeIn(-time.Hour), delegation.WithExpirationIn(time.Hour))
-	if err != nil {
-		return nil, err
+	for _, cmdText := range baseCommands {
+		if !command.IsValid(cmdText) {
+			return nil, fmt.Errorf("base command %q is not a valid command", cmdText)
+		}
+		cmd := command.Command(cmdText) // exactly this text is signed, whatever a parser would make of it
+		base := map[string]*envelopeParts{}
+		dlg, err := delegation.New(ew.H.id, ew.P.id, cmd, pol, delegation.WithSubject(ew.S.id),
+			delegation.WithMeta("k", "v"), delegation.WithNotBeforeIn(-time.Hour), delegation.WithExpirationIn(time.Hour))
+		if err != nil {
+			return nil, err
+		}
+		ds, _, err := dlg.ToSealed(ew.H.priv)
+		if err != nil {
+			return nil, err
+		}
+		if base["dlg"], err = partsOf(ds, "dlg"); err != nil {
+			return nil, err
+		}
+		inv, err := invocation.New(ew.H.id, ew.S.id, cmd, []cid.Cid{ew.cids[0]}, invocation.WithAudience(ew.P.id),
+			invocation.WithArgument("x", 1), invocation.WithMeta("k", "v"), invocation.WithExpirationIn(time.Hour), invocation.WithCause(&ew.cids[1]))
+		if err != nil {
+			return nil, err
+		}
+		is, _, err := inv.ToSealed(ew.H.priv)
+		if err != nil {
+			return nil, err
+		}
+		if base["inv"], err = partsOf(is, "inv"); err != nil {
+			return nil, err
+		}
+		ew.bases = append(ew.bases, base)
 	}
-	ds, _, err := dlg.ToSealed(ew.H.priv)
-	if err != nil {
-		return nil, err
-	}
-	if ew.base["dlg"], err = partsOf(ds, "dlg"); err != nil {
-		return nil, err
-	}
-	inv, err := invocation.New(ew.H.id, ew.S.id, command.MustParse("/a/b"), []cid.Cid{ew.cids[0]}, invocation.WithAudience(ew.P.id),
-		invocation.WithArgument("x", 1), invocation.WithMeta("k", "v"), invocation.WithExpirationIn(time.Hour), invocation.WithCause(&ew.cids[1]))
-	if err != nil {
-		return nil, err
-	}
-	is, _, err := inv.ToSealed(ew.H.priv)
-	if err != nil {
-		return nil, err
-	}
-	if ew.base["inv"], err = partsOf(is, "inv"); err != nil {
-		return nil, err
-	}
+	ew.base = ew.bases[0]
 	// M's varsig header: taken from a token M seals itself
 	md, err := delegation.Root(ew.M.id, ew.P.id, command.Top(), policy.Policy{})
 	if err != nil {
@@ -275,9 +289,14 @@ var badDids = []string{"did:web:example.com", "did:key:", "", "did:key:zABC", "d
 var shortNonces = []int{5, 1, 11}
 var badPolicies = []string{`[["xor", ".x", 1]]`, `[["==", "x", 1]]`, `[["like", ".x", "a\\"]]`, `[["and", ".x"]]`, `[["==", ".x"]]`, `{}`, `[["not", ["=="]]]`, `[[]]`}
 
+const foreignHeaders = 6
+
 func repsOf(c envCase) int {
 	n := 1
 	for _, op := range c.Ops {
+		if op.Op == "sethdr" && op.A == "foreign" && n < foreignHeaders {
+			n = foreignHeaders
+		}
 		if op.Op != "set" {
 			continue
 		}
@@ -457,7 +476,12 @@ func (ew *envWorld) apply(e *envelopeParts, op envOp) error {
 		case "alg1", "alg2":
 			e.hdr = basicnode.NewBytes(ew.hdr[op.A])
 		case "foreign":
-			e.hdr = basicnode.NewBytes([]byte{0x34, 0x01})
+			// a header that is not the issuer's: unrelated bytes, or the issuer's header with another payload encoding
+			// (dag-json), a trailing segment, the encoding segment cut off, nothing, another varsig version
+			h := ew.hdr["alg1"]
+			reps := [][]byte{{0x34, 0x01}, append(append([]byte{}, h[:len(h)-1]...), 0xa9, 0x02), append(append([]byte{}, h...), 0x71),
+				append([]byte{}, h[:len(h)-1]...), {}, append([]byte{0x35}, h[1:]...)}
+			e.hdr = basicnode.NewBytes(reps[ew.rot%len(reps)])
 		case "absent":
 			e.hdr = nil
 		case "notbytes":
@@ -713,13 +737,27 @@ func envelopeReplay(prop string) replayFn {
 		}
 		rep.Extra["algorithms"] = map[string]string{"H": ew.H.alg, "M": ew.M.alg}
 		var runRep func(ew *envWorld, raw json.RawMessage, c envCase) error
+		caseNo := 0
 		runCase := func(ew *envWorld, raw json.RawMessage, c envCase) error {
+			caseNo++
 			for r := 0; r < repsOf(c); r++ {
 				ew.rot = r
-				if err := runRep(ew, raw, c); err != nil {
-					return err
+				// behaviours the model accepts are replayed from every base token (each command class), the others from one in turn
+				bis := []int{(caseNo + r) % len(ew.bases)}
+				if c.Accept {
+					bis = bis[:0]
+					for b := range ew.bases {
+						bis = append(bis, b)
+					}
+				}
+				for _, b := range bis {
+					ew.base = ew.bases[b]
+					if err := runRep(ew, raw, c); err != nil {
+						return err
+					}
 				}
 			}
+			ew.base = ew.bases[0]
 			return nil
 		}
 		runRep = func(ew *envWorld, raw json.RawMessage, c envCase) error {
@@ -793,7 +831,11 @@ func envelopeReplay(prop string) replayFn {
 			if err := runCase(ew, raw, c); err != nil {
 				return err
 			}
-			if n := len(c.Ops); n > 0 && c.Ops[n-1].Op == "sig" {
+			hdrEdited := false
+			for _, op := range c.Ops {
+				hdrEdited = hdrEdited || (op.Op == "sethdr" && op.A == "foreign")
+			}
+			if n := len(c.Ops); n > 0 && (c.Ops[n-1].Op == "sig" || hdrEdited) {
 				sigCases = append(sigCases, raw)
 				sigParsed = append(sigParsed, c)
 			}
